@@ -1,0 +1,9 @@
+//go:build verif
+
+package identifier
+
+// VerifC39MatcherSources exposes the sources of the identifier regular
+// expressions to the verification harness (current format, legacy format).
+func VerifC39MatcherSources() (string, string) {
+	return matcher.String(), legacyMatcher.String()
+}
